@@ -24,7 +24,7 @@ ID = "C03"
 LEVEL = "exploration"
 RULE = (
     "Hypothesis: recursive expression models (all 28 ast classes of _node_map, all operators, depth <=4 quick / <=6 thorough) "
-    "rendered by ast.unparse into one of 13 storage positions x {future import, none} x 9 Literal spellings. "
+    "rendered by ast.unparse into one of 14 storage positions x {future import, none} x 9 Literal spellings. "
     "non-trivial = nesting depth >=2 and (CPython's unparser parenthesises at least one operand, or the tree holds a "
     "comprehension / lambda / f-string / starred / slice node, or a string constant sits in an annotation position); "
     "distinct = distinct (position kind, future import, normalised dump of the expected tree)"
@@ -45,7 +45,7 @@ ASSUMPTIONS = [
     "the expression does not rebind them; for all other names only that canonical_path does not raise",
 ]
 BUDGET_S = {"quick": 55.0, "thorough": 1100.0}
-SHRINK_MAX_EXAMPLES = 6000
+SHRINK_MAX_EXAMPLES = 70000
 
 ANNOTATION_POS = ("ann-module", "ann-module-value", "ann-class", "param-ann", "return", "method-param-ann")
 VALUE_POS = ("value-module", "value-class", "default", "kwdefault", "method-default", "decorator-func", "decorator-class", "base")
@@ -311,7 +311,7 @@ def parse_eval(text: str, starred_root: bool):
 
 
 # ----------------------------------------------------------------------------- root-cause localisation
-_TRANSPARENT = (ast.Slice, ast.Starred, ast.FormattedValue)
+_TRANSPARENT = (ast.Slice, ast.Starred, ast.FormattedValue, ast.Yield, ast.YieldFrom)
 
 
 def expr_children(node):
@@ -321,8 +321,11 @@ def expr_children(node):
         for child in value if isinstance(value, list) else [value]:
             if not isinstance(child, ast.AST):
                 continue
-            spec = isinstance(node, ast.FormattedValue) and field == "format_spec"
-            if isinstance(child, ast.expr) and not isinstance(child, _TRANSPARENT) and not spec:
+            # a format spec and an index tuple (it may hold slices) are not stand-alone expressions either
+            inline = (isinstance(node, ast.FormattedValue) and field == "format_spec") or (
+                isinstance(node, ast.Subscript) and field == "slice" and isinstance(child, ast.Tuple)
+            )
+            if isinstance(child, ast.expr) and not isinstance(child, _TRANSPARENT) and not inline:
                 yield child
             else:
                 yield from expr_children(child)
@@ -388,6 +391,8 @@ def _hints(node) -> list[str]:
                     out.append("spec")
             elif isinstance(part, ast.Constant) and any(c in part.value for c in "'\"\\{}\n\t\r"):
                 out.append("escape")
+            if isinstance(part, ast.FormattedValue) and ast.unparse(part.value).startswith("{"):
+                out.append("brace-value")
         out = sorted(set(out)) or ["field"]
     if isinstance(node, ast.Call) and any(isinstance(a, ast.GeneratorExp) for a in node.args):
         out.append("genexp-arg")
@@ -400,7 +405,8 @@ def _region(node) -> set[int]:
 
     def walk(n):
         for child in ast.iter_child_nodes(n):
-            if isinstance(child, ast.expr) and not isinstance(child, _TRANSPARENT):
+            index_tuple = isinstance(n, ast.Subscript) and child is n.slice and isinstance(child, ast.Tuple)
+            if isinstance(child, ast.expr) and not isinstance(child, _TRANSPARENT) and not index_tuple:
                 continue
             out.add(id(child))
             walk(child)
@@ -409,11 +415,13 @@ def _region(node) -> set[int]:
     return out
 
 
-_DEFINITE_HINTS = ("unpack", "posonly-last", "posonly-then-variadic", "vararg+kwonly", "empty-tuple", "conversion", "spec", "escape")
+_DEFINITE_HINTS = ("unpack", "posonly-last", "posonly-then-variadic", "vararg+kwonly", "empty-tuple", "conversion", "spec", "escape", "brace-value")
 
 
 def root_cause(src: ast.expr) -> tuple[str, str]:
     """(bucket kind, explanation) for a source expression whose stored string is wrong."""
+    if isinstance(src, ast.Starred):
+        src = ast.List([src], ast.Load())  # `*a` alone is not an expression
     found = localise(src)
     if found is None:
         return "whole-expression-only", "every sub-expression round-trips when built alone without string parsing"
@@ -425,12 +433,12 @@ def root_cause(src: ast.expr) -> tuple[str, str]:
     if definite:
         return f"{name}:{'+'.join(definite)}", where
     region = _region(node)
-    sites = sorted({G.site_label(p, f, c) for p, f, c in G.needs_parens_sites(node) if p is not None and id(p) in region})
-    if isinstance(node, (ast.GeneratorExp, ast.Yield, ast.YieldFrom)) and not sites:
-        # these carry their own parentheses; written alone CPython parenthesises them as well
-        sites = [f"root.<root><-{name}"]
-    if G.int_receiver_sites(node) and isinstance(node, ast.Attribute) and isinstance(node.value, ast.Constant):
+    if isinstance(node, ast.GeneratorExp):
+        # a generator expression is parenthesised everywhere but as the sole argument of a call (also when written alone)
+        return "GeneratorExp:parens", where
+    if isinstance(node, ast.Attribute) and isinstance(node.value, ast.Constant) and G.int_receiver_sites(node):
         return "Attribute:int-receiver", where
+    sites = sorted({G.site_label(p, f, c) for p, f, c in G.needs_parens_sites(node) if p is not None and id(p) in region})
     if sites:
         parent_cls = sites[0].split("<-")[0].split(".")[0]
         return f"parens:{parent_cls}", f"{where}; CPython parenthesises {sites}"
@@ -489,7 +497,12 @@ def check_case(case) -> list[Fail]:
         if got is not None and annotation:
             full = expand(r.expr, "must", r, Counter())
             if same(plain, got) or same(_all_parsed(r.expr, r), got) or same(full, got):
-                which = "parsed-although-postponed" if r.future else ("literal-or-unparsed" if stats.get("literal") else "not-parsed")
+                if r.future:
+                    which = "parsed-although-postponed"
+                elif same(plain, got):
+                    which = "not-parsed"
+                else:
+                    which = "parsed-inside-literal" if stats.get("literal") else "wrong-strings-parsed"
                 kind = f"strings:{which}"
         if got is not None and not annotation and kind is None and same(_all_parsed(r.expr, r), got):
             kind = "strings:parsed-outside-annotation"
@@ -607,8 +620,33 @@ def _all_parsed(node, r):
 
 # ----------------------------------------------------------------------------- search
 # known-finding slug -> generator switches that avoid the shape by construction while the slug is listed
-SLUG_SWITCHES: dict = {}
+SLUG_SWITCHES: dict = {
+    # no operand that needs parentheses because of operator precedence (it is replaced by a plain name)
+    "operand-parentheses": ("no-operand-parens",),
+    # f-strings restricted to literal text without quotes/braces/backslashes and plain {name} fields
+    "fstring-fidelity": ("fstring-plain",),
+}
 SWITCH_SLUG = {sw: slug for slug, sws in SLUG_SWITCHES.items() for sw in sws}
+
+
+def _known_operand_parentheses(case, fail: Fail) -> bool:
+    """The smallest sub-expression that does not round-trip has an operand that CPython's unparser parenthesises
+    because of operator precedence, and Griffe wrote it without (kind computed by root_cause on the case)."""
+    return fail.clause == "equivalent" and fail.kind.startswith("parens:")
+
+
+_FSTRING_CAUSES = {"conversion", "spec", "escape", "brace-value"}
+
+
+def _known_fstring_fidelity(case, fail: Fail) -> bool:
+    """The smallest sub-expression that does not round-trip is an f-string with a conversion (!r), a format spec,
+    literal text holding quotes/braces/backslashes/control characters, or a field whose text starts with a brace."""
+    if fail.clause != "equivalent" or not fail.kind.startswith("JoinedStr:"):
+        return False
+    return bool(set(fail.kind.split(":", 1)[1].split("+")) & _FSTRING_CAUSES)
+
+
+KNOWN = {"operand-parentheses": _known_operand_parentheses, "fstring-fidelity": _known_fstring_fidelity}
 
 
 def _switches(known) -> dict:
@@ -634,7 +672,7 @@ def build_case(data, sw: dict, depth: int) -> dict:
     if pos == "base" and b.flag(15):
         e = {"t": "Starred", "v": e}
     case = {"pos": pos, "future": future, "lit": lit, "expr": e}
-    steered = G.steer(e["v"] if e["t"] == "Starred" else e, _lit(case)[1], sw)
+    steered = G.steer(e, _lit(case)[1], sw)
     if steered:
         case["steered"] = steered
     return case
@@ -643,7 +681,13 @@ def build_case(data, sw: dict, depth: int) -> dict:
 def _case_strategy(ctx):
     depth = ctx.scale(4, 6)
     sw = _switches(ctx.known)
-    return G.choice_lists(16, ctx.scale(140, 260)).map(lambda data: build_case(data, sw, depth))
+    idle = {"pos": "value-module", "future": False, "lit": None, "expr": {"t": "Name", "id": "a"}}
+
+    def build(data):
+        # once the wall-clock budget is spent the harness no longer evaluates cases: do not build them either
+        return idle if ctx.res.budget_exhausted else build_case(data, sw, depth)
+
+    return G.choice_lists(ctx.scale(16, 40), ctx.scale(140, 260)).map(build)
 
 
 def strategy(ctx):
